@@ -215,7 +215,10 @@ CHECKS = {
              "Extension sleeping inside the workers steers the real pool into them; the unmodified CLI runs with "
              "several -c values and repetitions, and the process that ran the steered schedules aligns against another "
              "reference file with old and new worker counts; TLC compares all digests and checks the recorded "
-             "executions against the Pool model.",
+             "executions against the Pool model. Runs.tla models the life of the pools across the runs of one process "
+             "(inputs delivered with the task / inherited at fork x pool cleared / cached): TLC shows every task is "
+             "computed from its own run's inputs for the code as it is and finds the stale-pool deviation; the real "
+             "process history (which reference file each written record stems from) is validated against it.",
         design_ref="DESIGN.md section 4 (C09), section 10",
         note="Header lines echoing arguments, host and absolute paths are excluded from the byte comparison.",
     ),
